@@ -27,7 +27,7 @@ impl Monitor for C02 {
 		"C02"
 	}
 	fn rule(&self) -> String {
-		"C01's replay space (fixtures, all 784 versions, layout x shape matrix incl. zero frames / no metadata / no Game End / no gecko / doubled end / empty port set, random histories) x compression {none, LZ4, ZSTD} x hash {requested, not}. Steps observed separately: slippi::read -> peppi::write -> [every 4th trip: a read of the archive truncated to 2/3, which must not influence what follows] -> peppi::read (through the fragmenting source: whole / 512 / 97 / random<=3000 / 8192-byte reads, rotating) -> slippi::write; oracle: final bytes == input bytes, hash and quirks after the trip == before. One evaluation = one (file, compression, hash) triple. distinct = workload classes x compression x hash.".into()
+		"C01's replay space (fixtures, all 784 versions, layout x shape matrix incl. zero frames / no metadata / no Game End / no gecko / doubled end / empty port set, random histories; plus very long games with 65 535 .. 140 000 frame rows) x compression {none, LZ4, ZSTD} x hash {requested, not}. Steps observed separately: slippi::read -> peppi::write -> [every 4th trip: a read of the archive truncated to 2/3, which must not influence what follows] -> peppi::read (through the fragmenting source: whole / 512 / 97 / random<=3000 / 8192-byte reads, rotating) -> slippi::write; every third archive is also written through a sink that accepts 1/5/511/513 bytes per call and must be byte-identical; oracle: final bytes == input bytes, hash and quirks after the trip == before. One evaluation = one (file, compression, hash) triple. distinct = workload classes x compression x hash.".into()
 	}
 	fn lanes(&self, _tier: Tier) -> Vec<Lane> {
 		vec![
@@ -36,14 +36,31 @@ impl Monitor for C02 {
 		]
 	}
 	fn n_cases(&self, ctx: &Ctx) -> usize {
-		self.fixtures.len() + ctx.tier.pick(&self.quick, &self.thorough).len()
+		self.fixtures.len() + ctx.tier.pick(&self.quick, &self.thorough).len() + ctx.tier.pick(2, 8)
 	}
 	fn min_classes(&self, tier: Tier) -> usize {
 		tier.pick(100, 200)
 	}
 	fn run(&self, ctx: &Ctx, idx: usize) -> CaseOut {
 		let mut out = CaseOut::default();
-		let Some((desc, bytes, truth)) = case_input(ctx.tier.pick(&self.quick, &self.thorough), &self.fixtures, ctx.seed, idx, &mut out) else { return out };
+		let n_main = self.fixtures.len() + ctx.tier.pick(&self.quick, &self.thorough).len();
+		let input = if idx >= n_main {
+			// very long games: row counts around 2^16 and beyond (one small character, old layout)
+			let k = idx - n_main;
+			let n = [65_537usize, 65_536, 70_000, 131_073, 65_535, 100_000, 140_000, 66_000][k % 8];
+			let ver = [(0u8, 1u8, 0u8), (3, 16, 0), (2, 0, 0), (3, 7, 0)][k % 4];
+			let mut rng = crate::rng::Rng::derive(ctx.seed, 0xB16 + k as u64);
+			let mut s = crate::gen::base_spec(ver, vec![(1, false)], n);
+			for f in s.frames.iter_mut() {
+				f.items = 0;
+			}
+			let b = crate::gen::build(&s, &mut rng);
+			out.class(format!("huge|rows={}|v{}.{}", n, ver.0, ver.1));
+			Some((format!("{} [huge]", s.describe()), b.bytes, b.truth))
+		} else {
+			case_input(ctx.tier.pick(&self.quick, &self.thorough), &self.fixtures, ctx.seed, idx, &mut out)
+		};
+		let Some((desc, bytes, truth)) = input else { return out };
 		let base_classes: Vec<String> = out.classes.iter().cloned().collect();
 		let nports = crate::view::occupied_chars(&truth.start).iter().filter(|c| !c.1).count();
 		// big fixtures: one compression per hash setting is enough for quick
@@ -68,6 +85,18 @@ impl Monitor for C02 {
 				if hash != h0.is_some() {
 					out.violate("hash-presence", format!("{}: hash requested={} but reported {:?}", desc, hash, h0), Some(&bytes));
 				}
+				// history: every 4th trip is preceded by a write of the same game into a sink that fails
+				// part-way (same thread); it must fail and leave nothing behind
+				if (idx + ci) % 4 == 2 {
+					if let Ok(g0) = common::slp_read(&bytes, false, hash) {
+						let cut = 600 + (idx * 7919 + ci * 104729) % (bytes.len() + 4000);
+						let (r, _) = common::slpp_write_sink(g0, *comp, crate::iofault::Sink::failing(cut));
+						match r {
+							Err(_) => out.count("failing_sink_write_before_real_write", 1),
+							Ok(()) => out.count("failing_sink_beyond_archive_end", 1),
+						}
+					}
+				}
 				let slpp = match common::slpp_write(game, *comp) {
 					Ok(b) => b,
 					Err(f) => {
@@ -80,13 +109,36 @@ impl Monitor for C02 {
 					}
 				};
 				out.count("slpp_bytes", slpp.len() as u64);
+				// the same archive must come out of a sink that takes only a few bytes per call
+				if (idx + ci) % 3 == 0 && slpp.len() < 400_000 {
+					if let Ok(g3) = common::slp_read(&bytes, false, hash) {
+						let k = [1usize, 5, 511, 513][(idx / 3) % 4];
+						let (r, sink) = common::slpp_write_sink(g3, *comp, crate::iofault::Sink::short(k));
+						match r {
+							Ok(()) if sink.buf == slpp => out.count("short_write_sink_identical", 1),
+							Ok(()) => out.violate("slpp-short-write-sink-differs", format!("{} comp={}: archive written through a sink accepting {} bytes per call differs: {}", desc, comp.name(), k, common::first_diff(&slpp, &sink.buf)), Some(&bytes)),
+							Err(f) => out.violate(format!("slpp-short-write-sink-failed;{}", f.sig()), format!("{}: {}", desc, f.text()), Some(&bytes)),
+						}
+					}
+				}
 				// history: every 4th trip first attempts to read a truncated copy of the archive on the
 				// same thread (it must fail, whatever it does must not leak into the next read)
 				if (idx + ci) % 4 == 0 && slpp.len() > 2048 {
 					let cut = slpp.len() * 2 / 3;
-					match common::slpp_read(&slpp[..cut], false) {
-						Err(_) => out.count("truncated_archive_rejected_before_real_read", 1),
-						Ok(_) => out.count("truncated_archive_accepted(see C07)", 1),
+					// supervised: a reader that blocks on a truncated archive (C07's business) must not
+					// block this check; if it does, the sleeping thread is left behind and pre-reads stop
+					use std::sync::atomic::{AtomicBool, Ordering};
+					static PRE_READ_DISABLED: AtomicBool = AtomicBool::new(false);
+					if !PRE_READ_DISABLED.load(Ordering::Relaxed) {
+						let part = slpp[..cut].to_vec();
+						match crate::driver::watched(move || common::slpp_read(&part, false).is_ok(), || 0, std::time::Duration::from_secs(3), std::time::Duration::from_secs(8)) {
+							crate::driver::Watched::Done(false) => out.count("truncated_archive_rejected_before_real_read", 1),
+							crate::driver::Watched::Done(true) => out.count("truncated_archive_accepted(see C07)", 1),
+							_ => {
+								PRE_READ_DISABLED.store(true, Ordering::Relaxed);
+								out.count("truncated_pre_read_did_not_return(see C07)", 1);
+							}
+						}
 					}
 				}
 				// the archive is read through the instrumented source under a read schedule that
